@@ -61,7 +61,7 @@ def gen_seeded():
     for sid in sorted(d for d in os.listdir(root) if os.path.isdir(os.path.join(root, d))):
         m = json.load(open(os.path.join(root, sid, 'meta.json')))
         v = res.get(sid, {}).get('checks', {})
-        vs = ', '.join('%s: %s' % (p, x['verdict']) for p, x in v.items()) or res.get(sid, {}).get('error', 'not run yet')
+        vs = ', '.join('%s: %s' % (p, x['verdict']) for p, x in v.items()) or ('obsolete: ' + m['obsolete'][:160] if m.get('obsolete') else res.get(sid, {}).get('error', 'not run yet'))
         rows.append('| %s | %s | %s **Needs:** %s | %s |' % (sid, ', '.join(os.path.basename(f) for f in m.get('files', [])),
                     m.get('summary', '').replace('|', '\\|').replace('\n', ' ')[:420], m.get('needs', '').replace('|', '\\|').replace('\n', ' ')[:300], vs))
     return '\n'.join(rows)
